@@ -325,12 +325,13 @@ Proof.
   rewrite (url_noninterference c _ _ E1), (mdict_ni c _ _ E2), (option_map_ni c _ _ E3), E4. reflexivity.
 Qed.
 
-Lemma har_entry_of_vcr san c i : har_entry san c i = har_of (vcr_entry san c i).
+Lemma har_entry_of_vcr parse san c b i :
+  har_entry parse san c b i = har_of parse (vcr_entry san c i) b (i_req_headers i) (i_resp_headers i).
 Proof. reflexivity. Qed.
 
 (* before repo fix 8fd7266e the HAR writer raised on every entry whose URL had userinfo (default marker) *)
-Lemma har_before_fix_raises ui host i :
-  no_at host = true -> u_netloc (i_uri i) = ui ++ AT :: host -> har_entry_before_8fd7266e true default_config i = None.
+Lemma har_before_fix_raises parse b ui host i :
+  no_at host = true -> u_netloc (i_uri i) = ui ++ AT :: host -> har_entry_before_8fd7266e parse true default_config b i = None.
 Proof.
   intros Hh Hn. unfold har_entry_before_8fd7266e, vcr_entry, har_of_before_8fd7266e, sanitize_url. cbn [u_netloc].
   rewrite Hn, (userinfo_replaced _ ui host Hh). reflexivity.
@@ -352,9 +353,9 @@ Qed.
 
 (* now: the entry is written; its URL carries the marker instead of the userinfo, and every query
    record with a sensitive name carries the marker *)
-Lemma har_userinfo_entry_written c ui host i :
+Lemma har_userinfo_entry_written parse b c ui host i :
   no_at host = true -> u_netloc (i_uri i) = ui ++ AT :: host -> headers_have_values i = true ->
-  exists e, har_entry true c i = Some e /\ u_netloc (h_url e) = repl c ++ AT :: host /\
+  exists e, har_entry parse true c b i = Some e /\ u_netloc (h_url e) = repl c ++ AT :: host /\
             h_url e = sanitize_url c (i_uri i) /\ query_clean c (h_query e) = true.
 Proof.
   intros Hh Hn Hv. unfold headers_have_values in Hv. apply andb_true_iff in Hv. destruct Hv as [Hq Hs].
@@ -377,15 +378,204 @@ Definition w_har_interaction : interaction :=
      i_req_headers := [(s_Authorization, [[115]%N])]; i_resp_headers := None; i_open := [] |}.
 
 Lemma har_fix_witness :
-  har_entry_before_8fd7266e true default_config w_har_interaction = None /\
-  exists e, har_entry true default_config w_har_interaction = Some e /\
+  har_entry_before_8fd7266e simple_cookie true default_config false w_har_interaction = None /\
+  exists e, har_entry simple_cookie true default_config false w_har_interaction = Some e /\
             u_netloc (h_url e) = default_repl ++ [64;104]%N /\
             h_query e = [([116;111;107;101;110]%N, default_repl)] /\
             h_req_headers e = [(s_Authorization, default_repl)].
 Proof. split; [vm_compute; reflexivity|]. eexists. split; [vm_compute; reflexivity|]. repeat split. Qed.
 
-Lemma har_entry_ni c i i' : interaction_public c i = interaction_public c i' -> har_entry true c i = har_entry true c i'.
-Proof. intros E. rewrite !har_entry_of_vcr, (vcr_entry_ni c i i' E). reflexivity. Qed.
+(* ---- noninterference of the HAR entry *)
+
+(* everything except the two mimeType fields is a function of the VCR entry *)
+Lemma har_body_sans_mime parse uri rq rs op b raw_rq raw_rs :
+  option_map entry_sans_mime (har_body parse uri rq rs op b raw_rq raw_rs) =
+  option_map entry_sans_mime (har_body parse uri rq rs op false [] None).
+Proof.
+  unfold har_body. destruct (first_values rq) as [rqf|]; [|reflexivity].
+  destruct rs as [rsh|]; [|reflexivity]. destruct (first_values rsh) as [rsf|]; reflexivity.
+Qed.
+
+Lemma har_entry_sans_mime_ni parse c b b' i i' :
+  interaction_public c i = interaction_public c i' ->
+  option_map entry_sans_mime (har_entry parse true c b i) = option_map entry_sans_mime (har_entry parse true c b' i').
+Proof.
+  intros E. rewrite !har_entry_of_vcr, (vcr_entry_ni c i i' E). unfold har_of.
+  destruct (vcr_entry true c i') as [[[uri rq] rs] op].
+  rewrite har_body_sans_mime. symmetry. rewrite har_body_sans_mime. reflexivity.
+Qed.
+
+Lemma entry_cookies_of_sans_mime e e' : entry_sans_mime e = entry_sans_mime e' -> entry_cookies e = entry_cookies e'.
+Proof.
+  unfold entry_sans_mime, entry_cookies. intros E. inversion E as [[E1 E2 E3 E4 E5 E6]]. rewrite E4. f_equal.
+  destruct (h_resp e) as [r|], (h_resp e') as [r'|]; cbn [option_map] in E5; try discriminate; [|reflexivity].
+  inversion E5. reflexivity.
+Qed.
+
+(* the cookies arrays in particular *)
+Lemma har_cookies_ni parse c b b' i i' :
+  interaction_public c i = interaction_public c i' ->
+  option_map entry_cookies (har_entry parse true c b i) = option_map entry_cookies (har_entry parse true c b' i').
+Proof.
+  intros E. assert (H := har_entry_sans_mime_ni parse c b b' i i' E).
+  destruct (har_entry parse true c b i) as [e|], (har_entry parse true c b' i') as [e'|]; cbn [option_map] in *; try discriminate; [|reflexivity].
+  assert (H1 : entry_sans_mime e = entry_sans_mime e') by congruence. rewrite (entry_cookies_of_sans_mime e e' H1). reflexivity.
+Qed.
+
+Lemma assoc_get_erase_mdict c k h : is_sensitive c k = false -> assoc_get k (erase_mdict c h) = assoc_get k h.
+Proof.
+  intros Hk. induction h as [|[k' vs] h IH]; [reflexivity|]. cbn [erase_mdict map assoc_get].
+  destruct (str_eqb k k') eqn:Ek.
+  - apply str_eqb_spec in Ek. subst k'. rewrite Hk. reflexivity.
+  - exact IH.
+Qed.
+
+Lemma mime_public c h h' : content_type_public c = true -> erase_mdict c h = erase_mdict c h' -> mime_of h = mime_of h'.
+Proof.
+  unfold content_type_public. intros Hc E. apply negb_true_iff in Hc. unfold mime_of, dict_get.
+  rewrite <- (assoc_get_erase_mdict c _ h Hc), <- (assoc_get_erase_mdict c _ h' Hc), E. reflexivity.
+Qed.
+
+(* the whole entry, mimeType fields included, where the Content-Type header is not itself sensitive *)
+Lemma har_entry_ni parse c b i i' :
+  content_type_public c = true ->
+  interaction_public c i = interaction_public c i' -> har_entry parse true c b i = har_entry parse true c b i'.
+Proof.
+  intros Hc E. rewrite !har_entry_of_vcr, (vcr_entry_ni c i i' E).
+  unfold interaction_public in E.
+  assert (E2 := f_equal (fun t => snd (fst (fst t))) E). assert (E3 := f_equal (fun t => snd (fst t)) E).
+  cbn [fst snd] in E2, E3.
+  unfold har_of. destruct (vcr_entry true c i') as [[[uri rq] rs] op]. unfold har_body.
+  rewrite (mime_public c _ _ Hc E2).
+  destruct (i_resp_headers i) as [h|], (i_resp_headers i') as [h'|]; cbn [option_map] in E3; try discriminate; [|reflexivity].
+  inversion E3 as [E3']. rewrite (mime_public c _ _ Hc E3'). reflexivity.
+Qed.
+
+(* ... and outside that region the mimeType of the request body shows the recorded Content-Type value *)
+Definition w_mime_cfg : config := extend default_config (Some [s_ContentType]) None.
+Definition w_mime_interaction (secret : N) : interaction :=
+  {| i_uri := {| u_scheme := [104]%N; u_netloc := [104]%N; u_path := []; u_query := []; u_fragment := [] |};
+     i_req_headers := [(s_ContentType, [[secret]])]; i_resp_headers := None; i_open := [] |}.
+
+Lemma har_mime_leaks :
+  content_type_public w_mime_cfg = false /\
+  interaction_public w_mime_cfg (w_mime_interaction 65) = interaction_public w_mime_cfg (w_mime_interaction 66) /\
+  (exists e, har_entry simple_cookie true w_mime_cfg true (w_mime_interaction 65) = Some e /\
+             h_req_headers e = [(s_ContentType, default_repl)] /\ h_post_mime e = Some [65]%N) /\
+  har_entry simple_cookie true w_mime_cfg true (w_mime_interaction 65) <>
+  har_entry simple_cookie true w_mime_cfg true (w_mime_interaction 66).
+Proof.
+  split; [vm_compute; reflexivity|]. split; [vm_compute; reflexivity|]. split.
+  - eexists. split; [vm_compute; reflexivity|]. split; reflexivity.
+  - vm_compute. discriminate.
+Qed.
+
+(* ---- the cookies arrays *)
+
+Lemma dict_get_sanitize_mdict c k h :
+  dict_get k (sanitize_mdict c h) =
+  if is_sensitive c k then (if assoc_mem k h then [repl c] else []) else dict_get k h.
+Proof.
+  unfold dict_get, assoc_mem. induction h as [|[k' vs] h IH]; cbn [sanitize_mdict map assoc_get].
+  - destruct (is_sensitive c k); reflexivity.
+  - destruct (str_eqb k k') eqn:Ek.
+    + apply str_eqb_spec in Ek. subst k'. destruct (is_sensitive c k); reflexivity.
+    + exact IH.
+Qed.
+
+(* with sanitization on and a sensitive Cookie / Set-Cookie header name, the arrays are built from the MARKER:
+   a function of the configuration and of the presence of the header, whatever the header carried *)
+Lemma har_cookies_from_marker parse c b i e :
+  har_entry parse true c b i = Some e ->
+  (is_sensitive c s_Cookie = true ->
+   h_req_cookies e = if assoc_mem s_Cookie (i_req_headers i) then har_cookies parse [repl c] else []) /\
+  (is_sensitive c s_SetCookie = true ->
+   forall r h, h_resp e = Some r -> i_resp_headers i = Some h ->
+   hr_cookies r = if assoc_mem s_SetCookie h then har_cookies parse [repl c] else []).
+Proof.
+  unfold har_entry, vcr_entry, har_of, har_body.
+  destruct (first_values (sanitize_mdict c (i_req_headers i))) as [rqf|]; [|discriminate].
+  destruct (i_resp_headers i) as [rs|]; cbn [option_map].
+  - destruct (first_values (sanitize_mdict c rs)) as [rsf|]; [|discriminate].
+    intros E. injection E as <-. cbn [h_req_cookies h_resp]. split.
+    + intros Hs. rewrite dict_get_sanitize_mdict, Hs. destruct (assoc_mem s_Cookie (i_req_headers i)); reflexivity.
+    + intros Hs r h Er Eh. inversion Er. inversion Eh. subst. cbn [hr_cookies].
+      rewrite dict_get_sanitize_mdict, Hs. destruct (assoc_mem s_SetCookie h); reflexivity.
+  - intros E. injection E as <-. cbn [h_req_cookies h_resp]. split.
+    + intros Hs. rewrite dict_get_sanitize_mdict, Hs. destruct (assoc_mem s_Cookie (i_req_headers i)); reflexivity.
+    + intros _ r h Er. discriminate.
+Qed.
+
+(* the quirk of _extract_cookies: a parser that finds no cookie in a single character finds none at all,
+   sanitization on or off *)
+Lemma har_cookies_nil parse vs : (forall ch, parse [ch] = []) -> har_cookies parse vs = [].
+Proof.
+  intros Hp. unfold har_cookies. induction vs as [|v vs IH]; [reflexivity|]. cbn [flat_map]. rewrite IH, app_nil_r.
+  induction v as [|ch v IHv]; [reflexivity|]. cbn [flat_map]. rewrite Hp, IHv. reflexivity.
+Qed.
+
+Lemma har_entry_cookies_empty parse san c b i e :
+  (forall ch, parse [ch] = []) -> har_entry parse san c b i = Some e -> entry_cookies e = ([], []).
+Proof.
+  intros Hp. unfold har_entry, har_of. destruct (vcr_entry san c i) as [[[uri rq] rs] op]. unfold har_body.
+  destruct (first_values rq) as [rqf|]; [|discriminate].
+  destruct rs as [rsh|].
+  - destruct (first_values rsh) as [rsf|]; [|discriminate]. intros E. injection E as <-.
+    unfold entry_cookies. cbn [h_req_cookies h_resp hr_cookies]. rewrite !har_cookies_nil by exact Hp. reflexivity.
+  - intros E. injection E as <-. unfold entry_cookies. cbn [h_req_cookies h_resp].
+    rewrite har_cookies_nil by exact Hp. reflexivity.
+Qed.
+
+(* the modelled SimpleCookie fragment satisfies that contract for every character *)
+Lemma strip_sp_char ch : strip [SP] [ch] = if N.eqb ch SP then [] else [ch].
+Proof.
+  unfold strip. cbn [strip_left]. unfold mem. cbn [existsb]. rewrite orb_false_r.
+  destruct (N.eqb ch SP) eqn:E; [reflexivity|]. cbn [rev app strip_left]. unfold mem. cbn [existsb]. rewrite E. reflexivity.
+Qed.
+
+Lemma simple_cookie_char ch : simple_cookie [ch] = [].
+Proof.
+  unfold simple_cookie, split_on. cbn [split_on_aux].
+  destruct (N.eqb ch SEMI) eqn:E1; [reflexivity|].
+  cbn [split_on_aux rev app parse_items]. rewrite strip_sp_char.
+  destruct (N.eqb ch SP) eqn:E2; [reflexivity|]. cbn [cut_at].
+  destruct (N.eqb ch EQS) eqn:E3; reflexivity.
+Qed.
+
+(* SENTINEL variant (cookies parsed from the recorded header values, redacted by cookie name): leaks *)
+Definition s_sid : str := [115;105;100]%N.
+Definition w_cookie_interaction (secret : N) : interaction :=
+  {| i_uri := {| u_scheme := [104]%N; u_netloc := [104]%N; u_path := []; u_query := []; u_fragment := [] |};
+     i_req_headers := [(s_Cookie, [ s_sid ++ [EQS; secret] ++ [59;32;116;104;101;109;101;61;100]%N (* ; theme=d *) ])];
+     i_resp_headers := Some [(s_set_cookie_lc, [ s_sid ++ [EQS; secret] ++ [59;32;80;97;116;104;61;47]%N (* ; Path=/ *) ])];
+     i_open := [] |}.
+
+Lemma har_raw_cookies_leaks :
+  interaction_public default_config (w_cookie_interaction 65) = interaction_public default_config (w_cookie_interaction 66) /\
+  har_entry simple_cookie true default_config false (w_cookie_interaction 65) =
+  har_entry simple_cookie true default_config false (w_cookie_interaction 66) /\
+  (exists e r, har_entry_raw_cookies simple_cookie true default_config false (w_cookie_interaction 65) = Some e /\
+               h_req_headers e = [(s_Cookie, default_repl)] /\
+               h_req_cookies e = [new_cookie s_sid [65]%N; new_cookie [116;104;101;109;101]%N [100]%N] /\
+               h_resp e = Some r /\ hr_headers r = [(s_set_cookie_lc, default_repl)] /\
+               hr_cookies r = [set_attr s_path [47]%N false (new_cookie s_sid [65]%N)]) /\
+  har_entry_raw_cookies simple_cookie true default_config false (w_cookie_interaction 65) <>
+  har_entry_raw_cookies simple_cookie true default_config false (w_cookie_interaction 66).
+Proof.
+  split; [vm_compute; reflexivity|]. split; [vm_compute; reflexivity|]. split.
+  - eexists. eexists. split; [vm_compute; reflexivity|]. repeat split.
+  - vm_compute. discriminate.
+Qed.
+
+(* the sentinel does redact a cookie whose own name is sensitive - which is why it looks right on sessionid *)
+Lemma har_raw_cookies_sensitive_name parse c vs ck :
+  In ck (raw_cookies parse true c vs) -> is_sensitive c (ck_name ck) = true -> ck_value ck = repl c.
+Proof.
+  unfold raw_cookies, redact_cookies. intros Hin Hs. apply in_map_iff in Hin. destruct Hin as [x [Hx _]].
+  destruct (is_sensitive c (ck_name x)) eqn:Ex; subst ck.
+  - reflexivity.
+  - cbn in Hs. rewrite Ex in Hs. discriminate.
+Qed.
 
 Lemma vcr_file_ni_same_argv c argv0 args is_ is_' :
   map (interaction_public c) is_ = map (interaction_public c) is_' ->
@@ -548,7 +738,7 @@ Qed.
 
 Lemma off_identity c i k f loc fs argv0 args is_ :
   vcr_entry false c i = (i_uri i, i_req_headers i, i_resp_headers i, i_open i) /\
-  har_entry false c i = har_of (i_uri i, i_req_headers i, i_resp_headers i, i_open i) /\
+  (forall parse b, har_entry parse false c b i = har_of parse (i_uri i, i_req_headers i, i_resp_headers i, i_open i) b (i_req_headers i) (i_resp_headers i)) /\
   curl_view false c k = (k_url k, k_params k, requests_prepare (u_netloc (k_url k)) (k_headers k) (k_cookies k) (k_auth k), k_open k) /\
   failure_message false c f k = (f, curl_view false c k) /\
   console_view false c loc fs = (loc, map (fun fk => (fst fk, curl_view false c (snd fk))) fs) /\
